@@ -245,6 +245,18 @@ class FakeStream:
             if self.peer.unread > getattr(self.peer, "window", 256):
                 await anyio.sleep(1e9)
         for chunk in self.net.chunker(bytes(data)):
+            self.net.sgen = getattr(self.net, "sgen", 0) + 1
+            fate = getattr(self.net, "stream_fate", None)
+            verdict = fate(self.local, self.remote, self.net.sgen, chunk) if fate else "deliver"
+            if verdict == "break":
+                # the underlying connection breaks at this write (reset): both ends see it
+                self.net.log.append(("sbreak", self.net.loop.time(), self.local, self.remote, chunk))
+                await self.close()
+                raise anyio.BrokenResourceError
+            if verdict == "drop":
+                # a black hole: the write succeeds, nothing ever arrives (a frozen peer, a dead link before TCP gives up)
+                self.net.log.append(("sdrop", self.net.loop.time(), self.local, self.remote, chunk))
+                continue
             self.net.log.append(("stx", self.net.loop.time(), self.local, self.remote, chunk))
             self.net.loop.call_soon(self.peer.inbox.put, chunk)
 
